@@ -9,7 +9,7 @@
     theorem; for the sat of the current source it is a theorem (SatMono.v).
     The theorems are about ANY such solver: tsat(sat t) = t and sat(tsat p) = p. *)
 From Coq Require Import ZArith QArith Qreals Reals List Bool Lra.
-From P Require Import Expr Bounds.
+From P Require Import Expr Common BoundsDefs Bounds.
 From Gen Require Import GenThermo GenTraced.
 Import ListNotations.
 Close Scope Q_scope.
